@@ -89,7 +89,7 @@ func typeClassOf(f map[string]string) string {
 		return "map"
 	case strings.HasPrefix(t, "alias_"):
 		return "alias"
-	case strings.HasPrefix(t, "user_"), strings.HasPrefix(t, "recursive"), t == "inline_object":
+	case strings.HasPrefix(t, "user_"), strings.HasPrefix(t, "recursive"), strings.HasPrefix(t, "holder_"), t == "inline_object":
 		return "object"
 	case strings.HasPrefix(t, "union"):
 		return "union"
@@ -398,7 +398,7 @@ func checkProto(c *core.Ctx, family string, d *pipe.Design, sp *spec.Spec, svc *
 			if e.K != spec.KObject {
 				continue // wrapped into a single "field": no designed number
 			}
-			checkAttrs(sp, msgs, pm, e.Attrs, side.meta, map[string]bool{}, func(sig, what string) {
+			checkAttrs(sp, msgs, pm, e.Attrs, e.Required, side.meta, map[string]bool{}, func(sig, what string) {
 				report(m, fmt.Sprintf("C10 proto %s %s in=%s", sig, featString(m.Feat, "family"), side.name), what, nil)
 			}, c)
 		}
@@ -406,7 +406,7 @@ func checkProto(c *core.Ctx, family string, d *pipe.Design, sp *spec.Spec, svc *
 }
 
 // checkAttrs compares the fields of message pm with the designed attributes.
-func checkAttrs(sp *spec.Spec, msgs map[string]*protoparse.Message, pm *protoparse.Message, attrs []*spec.Attr, skip map[string]bool, visited map[string]bool,
+func checkAttrs(sp *spec.Spec, msgs map[string]*protoparse.Message, pm *protoparse.Message, attrs []*spec.Attr, required []string, skip map[string]bool, visited map[string]bool,
 	fail func(sig, what string), c *core.Ctx) {
 	if visited[pm.Name] {
 		return
@@ -458,6 +458,21 @@ func checkAttrs(sp *spec.Spec, msgs map[string]*protoparse.Message, pm *protopar
 				c.Outcome("field-number-ok at=field")
 			}
 		}
+		// requiredness: proto3 can say it for singular scalar fields only ("optional" = presence is
+		// tracked, the field may be absent); an attribute the design requires is not declared optional
+		if ae := sp.Eff(a.T); spec.IsPrimitive(ae.K) && ae.K != spec.KBytes {
+			isReq := false
+			for _, r := range required {
+				if r == a.Name {
+					isReq = true
+				}
+			}
+			if isReq && f.Label == "optional" {
+				fail("required-attribute-declared-optional at=field", fmt.Sprintf("message %s: attribute %q is required in the design, the definition declares the field optional", pm.Name, a.Name))
+			} else if isReq {
+				c.Outcome("requiredness-ok at=field")
+			}
+		}
 		// nested user types
 		t := a.T
 		for t != nil && (t.K == spec.KArray || t.K == spec.KMap) {
@@ -478,6 +493,6 @@ func checkAttrs(sp *spec.Spec, msgs map[string]*protoparse.Message, pm *protopar
 		if nm == nil || (t.K == spec.KUser && norm(nm.Name) != norm(t.Ref)) {
 			continue // reached through a wrapper message: not followed
 		}
-		checkAttrs(sp, msgs, nm, e.Attrs, nil, visited, fail, c)
+		checkAttrs(sp, msgs, nm, e.Attrs, e.Required, nil, visited, fail, c)
 	}
 }
